@@ -151,6 +151,7 @@ class Adversarial:
     """source of draws containing exact ties: x0 on quarter points, rho exactly r or 2r-, theta on the axes"""
     def __init__(self, seed):
         self.g = np.random.default_rng([seed, 77])
+        self.force_zero = False
 
     def uniform(self, low=0.0, high=1.0, size=None):
         g = self.g
@@ -166,16 +167,16 @@ class Adversarial:
         if high == TWO_PI or abs(high - TWO_PI) < 1e-9:
             # only theta = 0 gives an exact displacement (rho, 0): cos/sin of the other float multiples of
             # pi/2 are off by ~1e-16, which is a NEAR tie (float and exact arithmetic may disagree: skipped)
-            if u < 0.35:
+            if self.force_zero or u < 0.2:
+                self.force_zero = False
                 return 0.0
-            if u < 0.40:
-                return float([np.pi / 2, np.pi, 3 * np.pi / 2][g.integers(0, 3)])
             return float(g.uniform(low, high))
-        if u < 0.4:
+        if u < 0.3:
+            self.force_zero = True       # rho = r exactly, theta = 0: candidate at distance exactly r from x0
             return float(low)
-        if u < 0.55:
+        if u < 0.45:
             return float((low + high) / 2)
-        if u < 0.65:
+        if u < 0.55:
             return float(np.nextafter(high, low))
         return float(g.uniform(low, high))
 
@@ -255,6 +256,8 @@ def prep_bluenoise(c):
     i, n = 1, len(log)
     margin = np.inf
     tie = False
+    near_agree = 0
+    mind = np.inf
     while i < n:
         ev = log[i]
         if ev[0] != "choice":
@@ -300,6 +303,7 @@ def prep_bluenoise(c):
             ind = ~(np.any(C < 0, axis=1) | np.any(C > np.array([nx, ny]), axis=1))
             if ind.any():
                 D = np.linalg.norm(C[ind][:, None, :] - S[None, :, :], axis=-1)
+                mind = min(mind, float(np.min(np.abs(D - 1.0))))
                 near = np.abs(D - 1.0) < 4 * TOL
                 if near.any():
                     for a, b in zip(*np.nonzero(near)):
@@ -307,8 +311,11 @@ def prep_bluenoise(c):
                         d2 = (fr(p[0]) - fr(q[0])) ** 2 + (fr(p[1]) - fr(q[1])) ** 2
                         if d2 == 1:
                             tie = True
-                        else:
+                        elif (d2 > 1) != bool(D[a, b] > 1.0):
+                            # near-degenerate: float norm and exact arithmetic fall on different sides of r
                             margin = min(margin, abs(float(D[a, b]) - 1.0))
+                        else:
+                            near_agree += 1
         if oc == "A":
             if not cands:
                 r["kmis"].append("sample appended without a candidate draw")
@@ -330,8 +337,11 @@ def prep_bluenoise(c):
     if rerr > 1e-9:
         r["kmis"].append(f"returned points differ from x0 + rho*(cos, sin) rebuilt from the recorded draws by {rerr:.3g}")
         return r
-    if margin < max(TOL, 1e3 * rerr * max(nx, ny)):
-        r["skip"] = "distance-within-1e-12-of-r"
+    if rerr > 0 and mind < 1e3 * rerr * max(nx, ny):
+        r["skip"] = "rebuilt-candidates-not-bit-identical-and-distance-near-r"
+        return r
+    if margin < np.inf:
+        r["skip"] = "distance-within-1e-12-of-r-and-float-norm-on-the-other-side"
         return r
     # exact S on the pre-normalisation samples (dyadics): pairwise squared distance > 1
     F = [(fr(p[0]), fr(p[1])) for p in samples]
@@ -357,7 +367,7 @@ def prep_bluenoise(c):
         toks += [str(idx), str(len(C))]
         for p in C:
             toks += [hx(int(fr(p[0]) * sc)), hx(int(fr(p[1]) * sc))]
-    r.update(line=" ".join(toks), sc=sc, tie=tie, rerr=rerr,
+    r.update(line=" ".join(toks), sc=sc, tie=tie, rerr=rerr, near_agree=near_agree,
              trace=[(oc, len(C)) for (_, C, oc) in iters],
              samples=[[int(f[0] * sc), int(f[1] * sc)] for f in F], out=out,
              ncand=int(sum(len(C) for (_, C, _) in iters)))
@@ -589,6 +599,9 @@ def evaluate_real(ctx, cases):
         fam = c["fn"] + "/" + c["mode"] + ("/nx!=ny" if c["fn"] != "uniform" and c["nx"] != c["ny"] else "")
         if r["timeout"]:
             res.skip("implementation-run-exceeded-time-limit")
+            lst = res.extra.setdefault("calls_that_did_not_return_within_limit", [])
+            if len(lst) < 6:
+                lst.append(describe(c))
             continue
         res.count(fam, nontrivial_key(c, r["n"]))
         for key, what in r["bad"]:
@@ -648,6 +661,7 @@ def evaluate_scripted(ctx, cases):
             st["nochange"] += sum(1 for t in r["trace"] if t[0] == "N")
             st["candidates"] += r["ncand"]
             st["exact_ties_r"] += 1 if r["tie"] else 0
+            st["near_ties_same_side"] = st.get("near_ties_same_side", 0) + r["near_agree"]
             if len(r["trace"]) > 3:
                 res.sample({"call": f"bluenoise(k={r['case']['k']}, nx={r['case']['nx']}, ny={r['case']['ny']}) on a {r['case']['mode']} stream",
                             "iterations": len(r["trace"]), "trace_head": ["%s%d" % t for t in r["trace"][:8]], "points": len(r["out"])}, cap=8)
